@@ -190,11 +190,46 @@ impl<'a> JsonTokenizer<'a> {
                     '\\' => result.push('\\'),
                     '"' => result.push('"'),
                     'n' => result.push('\n'),
-                    // 't' => result.push('\t'),
-                    // 'r' => result.push('\r'),
-                    // Add other escape sequences as needed
-                    // _ => result.push(c), // Push the character as is if unknown escape
-                    _ => {}
+                    't' => result.push('\t'),
+                    'r' => result.push('\r'),
+                    'b' => result.push('\u{8}'),
+                    'f' => result.push('\u{c}'),
+                    '/' => result.push('/'),
+                    'u' => {
+                        let mut code = self.read_hex4()?;
+                        // surrogate pair: \uD83D\uDE00
+                        if (0xD800..0xDC00).contains(&code) {
+                            if self.read()? != '\\' || self.read()? != 'u' {
+                                return Err(io::Error::new(
+                                    io::ErrorKind::InvalidData,
+                                    "Unpaired surrogate in \\u escape",
+                                ));
+                            }
+                            let low = self.read_hex4()?;
+                            if !(0xDC00..0xE000).contains(&low) {
+                                return Err(io::Error::new(
+                                    io::ErrorKind::InvalidData,
+                                    "Unpaired surrogate in \\u escape",
+                                ));
+                            }
+                            code = 0x10000 + ((code - 0xD800) << 10) + (low - 0xDC00);
+                        }
+                        match char::from_u32(code) {
+                            Some(ch) => result.push(ch),
+                            None => {
+                                return Err(io::Error::new(
+                                    io::ErrorKind::InvalidData,
+                                    "Invalid \\u escape",
+                                ));
+                            }
+                        }
+                    }
+                    _ => {
+                        return Err(io::Error::new(
+                            io::ErrorKind::InvalidData,
+                            format!("Invalid escape sequence '\\{}'", c),
+                        ));
+                    }
                 }
                 escape = false;
             } else if c == '\\' {
@@ -215,6 +250,18 @@ impl<'a> JsonTokenizer<'a> {
                 "Unterminated string",
             ))
         }
+    }
+
+    fn read_hex4(&mut self) -> io::Result<u32> {
+        let mut code: u32 = 0;
+        for _ in 0..4 {
+            let digit = self
+                .read()?
+                .to_digit(16)
+                .ok_or_else(|| io::Error::new(io::ErrorKind::InvalidData, "Invalid \\u escape"))?;
+            code = code * 16 + digit;
+        }
+        Ok(code)
     }
 
     fn read_until_separator(&mut self) -> io::Result<String> {
